@@ -91,6 +91,14 @@ func BuildSPMetadata(c *SPCfg) string {
 		sb.WriteString(` AuthnRequestsSigned="` + xa(c.AuthnRequestsSigned) + `"`)
 	}
 	sb.WriteString(` WantAssertionsSigned="true" protocolSupportEnumeration="urn:oasis:names:tc:SAML:2.0:protocol">` + "\n")
+	encKD := ""
+	if c.EncKey > 0 {
+		encKD = "    <" + mdp + `KeyDescriptor use="encryption"><` + dsp + "KeyInfo><" + dsp + "X509Data><" + dsp + "X509Certificate>" + Keys[mod(c.EncKey, NumKeys)].CertB64 +
+			"</" + dsp + "X509Certificate></" + dsp + "X509Data></" + dsp + "KeyInfo></" + mdp + "KeyDescriptor>\n"
+	}
+	if c.EncFirst {
+		sb.WriteString(encKD)
+	}
 	if c.HasCert {
 		cert := Keys[mod(c.Key, NumKeys)].CertB64
 		if c.CertWrap {
@@ -102,6 +110,9 @@ func BuildSPMetadata(c *SPCfg) string {
 		}
 		sb.WriteString("    <" + mdp + "KeyDescriptor" + use + "><" + dsp + "KeyInfo><" + dsp + "X509Data><" + dsp + "X509Certificate>" + cert +
 			"</" + dsp + "X509Certificate></" + dsp + "X509Data></" + dsp + "KeyInfo></" + mdp + "KeyDescriptor>\n")
+	}
+	if !c.EncFirst {
+		sb.WriteString(encKD)
 	}
 	for _, s := range c.SLO {
 		rl := ""
